@@ -97,6 +97,32 @@ def fmt_rules(rules):
     return "%d %s" % (len(rules), " ".join("%s %s %s" % (L(ks), L(vs), p) for ks, vs, p in rules)) if rules else "0"
 
 
+def gen_ucve_connected(rng):
+    """connected graph, complete tables, several overlapping factors (regime of the UCVE pruning defect)"""
+    import itertools
+    n = rng.randint(3, 5)
+    A = [rng.choice([2, 2, 3]) for _ in range(n)]
+    ksets = []
+    perm = list(range(n)); rng.shuffle(perm)
+    for i in range(1, n):
+        ks = sorted({perm[i], perm[rng.randrange(i)]})
+        if rng.random() < 0.3:
+            ks = sorted(set(ks) | {rng.randrange(n)})
+        if ks not in ksets:
+            ksets.append(ks)
+    for _ in range(rng.randint(0, 2)):
+        ks = sorted(rng.sample(range(n), rng.randint(1, 2)))
+        if ks not in ksets:
+            ksets.append(ks)
+    den = rng.choice([4, 16, 64])
+    rules = []
+    for ks in ksets:
+        for vs in itertools.product(*[range(A[k]) for k in ks]):
+            rules.append((ks, list(vs), "%d/%d %d/%d" % (rng.randint(0, den), den, rng.randint(0, den), den)))
+    logtA = rng.choice(["1/2", "1", "2", "4", "8", "25/2"])
+    return "ucve %s %s 1 %s" % (L(A), logtA, fmt_rules(rules))
+
+
 def gen_case(rng, kind):
     if kind in ("move", "ucve"):
         A = gen_A(rng, maxn=5, maxa=3)
@@ -127,6 +153,8 @@ def gen_case(rng, kind):
         pay = lambda r: "%d %s" % (nobj, " ".join(dy(r, -8, 8) for _ in range(nobj)))
         sets = [(gen_complete_rules(rng, A, pool, pay) if rng.random() < 0.6 else gen_rules(rng, A, pool, pay, maxr=7)) for _ in range(nsets)]
         return "move %s %d %d %s" % (L(A), nobj, nsets, " ".join(fmt_rules(s) for s in sets))
+    if kind == "ucve" and rng.random() < 0.35:
+        return gen_ucve_connected(rng)
     if kind == "ucve":
         logtA = rng.choice(["1/2", "1", "2", "4", "8", "25/2"])
         lo = -16 if rng.random() < 0.3 else 0
